@@ -42,9 +42,18 @@ print("%d %s sites in functions under contract" % (len(sites), kind), flush=True
 bad = 0
 for rel, ln, row, units in sites:
     src = open(os.path.join(REPO, rel), "rb").read()
-    ls, le = map(int, row["left"].split(":"))
-    rs, re_ = map(int, row["right"].split(":"))
-    L, R = src[ls:le].decode(), src[rs:re_].decode()
+    if kind == "ifelse":
+        cs, ce = map(int, row["cond"].split(":"))
+        ts, te = map(int, row["then"].split(":"))
+        es, ee = map(int, row["else"].split(":"))
+        L, R = src[cs:ce].decode(), "swap branches"
+        new = src[:cs] + ("!(" + src[cs:ce].decode() + ")").encode() + src[ce:ts] + src[es:ee] + src[te:es] + src[ts:te] + src[ee:]
+        ls = le = rs = re_ = 0
+    else:
+        ls, le = map(int, row["left"].split(":"))
+    if kind != "ifelse":
+        rs, re_ = map(int, row["right"].split(":"))
+        L, R = src[ls:le].decode(), src[rs:re_].decode()
     mid = src[le:rs]
     if kind == "cmp":
         flip = {"<": ">", "<=": ">=", ">": "<", ">=": "<=", "==": "==", "!=": "!="}
@@ -52,7 +61,8 @@ for rel, ln, row, units in sites:
         if op not in flip:
             continue
         mid = (" " + flip[op] + " ").encode()
-    new = src[:ls] + ("(" + R + ")").encode() + mid + ("(" + L + ")").encode() + src[re_:]
+    if kind != "ifelse":
+        new = src[:ls] + ("(" + R + ")").encode() + mid + ("(" + L + ")").encode() + src[re_:]
     open(os.path.join(scratch, rel), "wb").write(new)
     for un in units:
         env = dict(os.environ, VERIF_REPO=scratch)
